@@ -1110,6 +1110,84 @@ func runProductSeeded(run *vx.Run) {
 	}
 	run.AddCounts(cases, cases, cases)
 	run.Set("seeded_iterator_scenarios", table)
+	if fanout == 16 {
+		runWraparound(run)
+	}
+}
+
+// runWraparound: between two Next calls of a parked iterator, one mutation next to it followed by
+// further mutations far away, so that the TOTAL number of structural modifications is exactly 2^8,
+// 2^16 or 2*2^16 (or one off): a modification counter narrower than the number of modifications an
+// iterator can live through must not make a stale cursor look fresh.
+func runWraparound(run *vx.Run) {
+	cfg := tr.Config{Ctor: "cmp", Order: "nat", U: 1 << 14}
+	var cases int64
+	totals := []int{255, 256, 257, 65535, 65536, 65537}
+	if !run.Quick() {
+		totals = append(totals, 131071, 131072, 196608, 1<<20)
+	}
+	for _, total := range totals {
+		for _, rev := range []bool{false, true} {
+			for _, nearDel := range []bool{true, false} {
+				if !nearDel && total > 1000 && run.Quick() {
+					continue
+				}
+				cases++
+				sp := tr.IterSpec{Iterate: true}
+				if rev {
+					sp = tr.IterSpec{Reverse: true, LoKind: tr.Inc, Lo: 1, HiKind: tr.Inc, Hi: 400}
+				}
+				s := productSys{cfg: cfg, specs: []tr.IterSpec{sp}, maxIters: 1}
+				p := &prodInst{t: tr.New(cfg)}
+				p.t.Budget = 100000
+				applyOps(p.t, fillAsc(40)) // keys 2..80, several leaves
+				hist := []string{"seed:asc40"}
+				var v *seqx.Viol
+				do := func(o seqx.Op, record bool) bool {
+					if record {
+						hist = append(hist, s.opStr(o))
+					}
+					v = s.step(p, o)
+					return v == nil
+				}
+				ok := do(seqx.Op{K: opCreate, A: 0}, true)
+				for i := 0; ok && i < 5; i++ {
+					ok = do(seqx.Op{K: opNext}, true)
+				}
+				// the iterator has yielded 2..10 (reverse: 80..72); mutate right in front of it
+				k := 12
+				if rev {
+					k = 70
+				}
+				m := seqx.Op{K: opDelete, A: int16(k)}
+				if !nearDel {
+					m = seqx.Op{K: opPut, A: int16(k + 1)}
+				}
+				if ok {
+					ok = do(m, true)
+				}
+				for i := 1; ok && i < total; i++ {
+					o := seqx.Op{K: opPut, A: 9001}
+					if i%2 == 0 {
+						o.K = opDelete
+					}
+					ok = do(o, false)
+				}
+				hist = append(hist, fmt.Sprintf("(%d further Put/Delete of key 9001: %d structural modifications in all)", total-1, total))
+				for i := 0; ok && i < 60 && !(p.mons[0].exhausted && i > 1); i++ {
+					ok = do(seqx.Op{K: opNext}, true)
+				}
+				if v != nil {
+					run.Violate(vx.Violation{Signature: v.Sig + "/after-" + fmt.Sprint(total) + "-modifications", Detail: fmt.Sprintf("[fan-out %d, %s] %s; history %v", fanout, cfg, v.Detail, hist),
+						Replay: map[string]any{"mode": "wraparound", "fanout": fanout}})
+					run.AddCounts(cases, cases, cases)
+					return
+				}
+			}
+		}
+	}
+	run.AddCounts(cases, cases, cases)
+	run.Set("modification_counter_wraparound", fmt.Sprintf("an iterator parked across exactly %v structural modifications (one of them next to it), forward and reverse", totals))
 }
 
 func main() {
@@ -1222,6 +1300,13 @@ func doReplay(run *vx.Run, prop string) {
 		s := productSys{cfg: rp.Config, keys: keys, specs: rp.Specs, maxIters: rp.MaxIters}
 		fmt.Println(s.pathStr(rp.Ops))
 		_, v = s.replay(rp.Ops)
+	case "wraparound":
+		runWraparound(run)
+		run.Finish()
+	case "product-seeded":
+		// the scenario family is deterministic: re-run it (the recorded history is in 'readable')
+		runProductSeeded(run)
+		run.Finish()
 	default:
 		fmt.Println("replay of this mode: re-run the check; the recorded history is in the 'readable' member")
 		os.Exit(3)
